@@ -97,6 +97,41 @@ int main(int argc, char **argv) {
         iwkv_del(db, &skey, 0);
       }
       free(sk); free(k);
+    } else if (!strcmp(w[0], "lxcmp2") && n == 9) {
+      // two keys in one node; the node's cached first key is refreshed by deleting one of them (_sblk_rmkv), then a lookup
+      // key is compared against the node: once with the first stored key deleted, once with the second
+      int m = mode_of(w[1]), c = atoi(w[2]);
+      IWDB db = dbs[m * 2 + c];
+      size_t l1, l2, lk; uint8_t *s1 = hx_parse(w[3], &l1), *s2 = hx_parse(w[5], &l2), *k = hx_parse(w[7], &lk);
+      uint64_t n1 = 0, n2 = 0, kn = 0;
+      struct iwkv_val key1 = { .data = s1, .size = l1, .compound = strtoll(w[4], 0, 10) };
+      struct iwkv_val key2 = { .data = s2, .size = l2, .compound = strtoll(w[6], 0, 10) };
+      struct iwkv_val key = { .data = k, .size = lk, .compound = strtoll(w[8], 0, 10) };
+      if (m == 1) { n1 = vnum_of(s1); n2 = vnum_of(s2); kn = vnum_of(k); key1.data = &n1; key2.data = &n2; key.data = &kn; key1.size = key2.size = key.size = 8; }
+      struct iwkv_val val = { .data = "v", .size = 1 };
+      printf("lxcmp2");
+      for (int round = 0; round < 2; ++round) {
+        iwrc rc = iwkv_put(db, &key1, &val, 0);
+        if (!rc) rc = iwkv_put(db, &key2, &val, 0);
+        if (!rc) rc = iwkv_del(db, round ? &key2 : &key1, 0);
+        if (rc) { printf(" rc=%" PRIu64, rc); }
+        else {
+          struct iwkv_val ekey; uint8_t nbuf[IW_VNUMBUFSZ];
+          rc = _to_effective_key(db, &key, &ekey, nbuf);
+          struct iwlctx lx = { .db = db, .key = &ekey, .nlvl = -1 };
+          struct sblk *d = 0, *s = 0; int res = 0;
+          if (!rc) rc = _sblk_at(&lx, db->addr, 0, &d);
+          if (!rc && !d->n[0]) printf(" same");
+          else {
+            if (!rc) rc = _sblk_at(&lx, BLK2ADDR(d->n[0]), 0, &s);
+            if (!rc) rc = _lx_sblk_cmp_key(&lx, s, &res);
+            if (rc) printf(" rc=%" PRIu64, rc); else printf(" %d", hx_sgn(res));
+          }
+        }
+        iwkv_del(db, &key1, 0); iwkv_del(db, &key2, 0);
+      }
+      printf("\n");
+      free(s1); free(s2); free(k);
     } else printf("bad-op\n");
   }
   fflush(stdout);
